@@ -149,6 +149,13 @@ def st_case(draw):
         kw = draw(G.st_point_kw(cm, years=st.just(2000), reps="co"))
     kw["num_expanded_year_digits"] = xd
     route = draw(st.sampled_from(["str", "str", "format", "format", "format"]))
+    edge = route == "format" and draw(st.integers(0, 4)) == 0
+    if edge:
+        # near midnight on a month / year / leap-day edge, to be dumped in a
+        # zone on the other side of it
+        kw = draw(G.st_edge_point_kw(cm, forms=G.INT_FORMS))
+        xd, top = 2, 10 ** 6 - 1
+        kw["num_expanded_year_digits"] = xd
     case = {"mode": mode, "p": kw, "route": route}
     inst = M.kw_instant(cm, kw)
     if route == "str" and inst.denominator == 1 and M.kw_form(kw) == "hms" \
@@ -167,6 +174,8 @@ def st_case(draw):
         if tkey != "h,ii":
             kinds += ["Z", "literal"]
         zk = draw(st.sampled_from(kinds))
+        if edge:
+            zk = draw(st.sampled_from(["Z", "literal"]))
         if zk == "template":
             zt = draw(st.sampled_from(ZONE_TEMPLATES[nota]))
             if zt == "+hh" and tzm != 0:
@@ -176,6 +185,8 @@ def st_case(draw):
             zone = "Z"
         else:
             h, m = draw(G.st_tz())
+            if edge:
+                h, m = -tzh, -tzm
             sg = "-" if (h < 0 or m < 0) else "+"
             if nota == "extended":
                 zone = "%s%02d:%02d" % (sg, abs(h), abs(m))
